@@ -96,6 +96,11 @@ func c26BuildVariant(st *refbungee.State, variant string) *c26World {
 			if dead[p.Name] {
 				peer.backend.cancel()
 			}
+			if rest, ok := strings.CutPrefix(variant, "switch:"); ok {
+				if name, old, _ := strings.Cut(rest, ":"); name == p.Name {
+					servers[old].players.add(peer.player) // not yet removed from the server it is leaving
+				}
+			}
 		}
 		cw.peers = append(cw.peers, peer)
 	}
@@ -185,6 +190,10 @@ func c26AdapterCheck(st *refbungee.State, req refbungee.Request) (fails []c26Fai
 //	"handler"   the request arrives as a backend packet at the REAL backendPlaySessionHandler built by
 //	            newBackendPlaySessionHandler (config flag wiring, consumed-or-relayed decision included)
 //	"disabled"  the same with bungeePluginChannelEnabled=false in the config: no BungeeCord behaviour at all
+//	"switch:p:a" direct, player p is in the window of a server switch a -> (its server in the state): its
+//	            current connection already is the one to the new server and it is listed there, but it is
+//	            STILL listed on the old server a (the old connection's teardown removes it later). The
+//	            reference state is unchanged: p is on its new server; nothing may reach a through p
 //	"dead:a,b"  direct, the backend connections of players a, b are dead (see c26Dead): what can only travel
 //	            over a dead connection is not expected; a forward to a server is expected exactly once as
 //	            long as ONE live connection to it exists
@@ -436,6 +445,39 @@ func c26MixedForward(st *refbungee.State, want []refbungee.Effect, variant strin
 
 const c26MixedRepeats = 12
 
+// c26SwitchVariants: every player that has a current server x every OTHER registered server as the one it
+// is leaving.
+func c26SwitchVariants(st *refbungee.State) []string {
+	var out []string
+	for _, p := range st.Players {
+		if p.Server == "" {
+			continue
+		}
+		for _, s := range st.Servers {
+			if s.Name != p.Server {
+				out = append(out, "switch:"+p.Name+":"+s.Name)
+			}
+		}
+	}
+	return out
+}
+
+// c26SwitchMixed: the server being left also has players that really are on it: whether the proxy meets
+// the stale entry or a real one first follows the map iteration order -> repeated like the dead/live cases.
+func c26SwitchMixed(st *refbungee.State, variant string) bool {
+	rest, ok := strings.CutPrefix(variant, "switch:")
+	if !ok {
+		return false
+	}
+	_, old, _ := strings.Cut(rest, ":")
+	for _, p := range st.Players {
+		if p.Server == old {
+			return true
+		}
+	}
+	return false
+}
+
 func TestVerif(t *testing.T) {
 	vrt.Run(t, "C26", func(r *vrt.R) {
 		synctest.Test(r.T, func(t *testing.T) {
@@ -452,7 +494,7 @@ func TestVerif(t *testing.T) {
 							r.Violation(f.key, f.desc, rc)
 						}
 					}
-					if !c26MixedForward(&rc.State, want, rc.Variant) {
+					if !c26MixedForward(&rc.State, want, rc.Variant) && !c26SwitchMixed(&rc.State, rc.Variant) {
 						break
 					}
 				}
@@ -461,6 +503,12 @@ func TestVerif(t *testing.T) {
 			sts := refbungee.States(3)
 			reqs := refbungee.Requests(r.Thorough(), r.Thorough())
 			wellFormed := refbungee.Requests(false, false)
+			var forwards []refbungee.Request // Forward <server|ALL|ONLINE> with the short channel name
+			for _, req := range wellFormed {
+				if strings.HasPrefix(req.Label, "Forward ") && strings.Contains(req.Label, ` "ch" `) {
+					forwards = append(forwards, req)
+				}
+			}
 			classes := map[string]int{}
 			for si := range sts {
 				if !r.Mine(si) {
@@ -483,12 +531,18 @@ func TestVerif(t *testing.T) {
 				}
 				// further variants (see c26AdapterCheckVariant) over the well-formed requests
 				variants := append([]string{"handler", "disabled"}, c26DeadVariants(st)...)
+				variants = append(variants, c26SwitchVariants(st)...)
 				for _, variant := range variants {
 					vclass := variant
 					if strings.HasPrefix(variant, "dead:") {
 						vclass = "dead-backend-connections"
 					}
-					for _, req := range wellFormed {
+					vreqs := wellFormed
+					if strings.HasPrefix(variant, "switch:") {
+						vclass = "server-switch-window"
+						vreqs = forwards // player lists / counts of the server being left are not defined in the window
+					}
+					for _, req := range vreqs {
 						reps := 1
 						for n := 0; n < reps; n++ {
 							fails, class, want, defined := c26AdapterCheckVariant(st, req, variant)
@@ -503,6 +557,10 @@ func TestVerif(t *testing.T) {
 							if n == 0 && c26MixedForward(st, want, variant) {
 								reps = c26MixedRepeats
 								classes["adapter(dead-backend-connections):forward-over-mixed-dead-and-live-connections"]++
+							}
+							if n == 0 && defined && c26SwitchMixed(st, variant) {
+								reps = c26MixedRepeats
+								classes["adapter(server-switch-window):server-being-left-also-has-real-players"]++
 							}
 						}
 					}
